@@ -563,17 +563,27 @@ ROUND2 = {
            "C10_ruleStep_refines_spec proves the transliterated step EQUAL to it (all outputs, every exception) on every "
            "world with unique ids and priced connectors; the property's sentences are corollaries read off the spec; the "
            "spec runs as a third party in the stream (bit level).",
-    "C13": "Round 2: aggressive_round generated from the source and proved equal to the hand model (C13_gen_*).",
+    "C11": "Round 2: the strategy constructors (PeakLoadWindow complete, Schedule, FlexWindow, BalancedMarket, PeakShaving) are "
+           "modelled and tied at the start of every real run; C11_init_* (signal shift = min(signal, start), PLW event table, "
+           "initial peak, LOAD_STRAT validation).",
+    "C13": "Round 2: aggressive_round generated from the source and proved equal to the hand model (C13_gen_*); "
+           "read_grid_file's text handling and sanitize modelled with an exact stream (C13_gridfile_*).",
+    "C15": "Round 2: peak_load_window's window-table conversion and year replacement (C15_init_*): the converted table "
+           "denotes the same instants as the file's first-season / half-open reading.",
     "C14": "Round 2: over a whole run (induction over the step list, arrivals/departures between steps) the projection of "
            "the distributed run to a connector equals the stand-alone balanced/greedy run of the restricted world, and is "
            "independent of the other connectors (C14_distributed_run_*); at most number_cs stations carry power after the "
            "complete step; delegation stated against the C10 spec; iterated model tied over standing periods.",
     "C17": "Round 2: Scenario/Components/Strategy constructors, class_from_str and simulate's option handling are in the "
            "model with exact streams; C17_ctor_* (n_intervals / stop_time arithmetic, exactly-one-key assertion) and with "
-           "C17_run_shape: a run without error reports exactly the configured number of steps.",
+           "C17_run_shape: a run without error reports exactly the configured number of steps. Every fuel-guarded loop of "
+           "flex_window and schedule ends within an explicit bound (incl. the collective retry loop), C17_<strategy>_step_total "
+           "for all eight strategy models, iteration counts of the real loops <= the proved bounds as an oracle; genuine hangs "
+           "H4, PLW4, BM3 found from the missing bounds and repaired (fix commits 328b0df, e499e3b, 7e25c32).",
     "C18": "Round 2: split_feedin generated from the source and proved equal to the hand model (C18_gen_*); disconnect "
            "back-fill = linear interpolation between the SoC at departure and at arrival, connected rows never rewritten "
-           "(C18_disconnect_*).",
+           "(C18_disconnect_*); aggregates complete (C18_aggregates, C18_agg_ok), flex-band columns (C18_flexcols_*), "
+           "results-JSON entries and order (C18_json_*).",
 }
 
 
